@@ -134,6 +134,8 @@ where
     /// [2]: [crate::thread_local_arc]
     #[must_use]
     pub fn get(&self) -> T {
+        #[cfg(folo_verif)]
+        crate::verif_hook::point("si.local.lookup");
         if let Some(instance) = self.new_from_local_registry() {
             return instance;
         }
@@ -162,6 +164,8 @@ where
     }
 
     fn get_family_global(&self) -> Option<Family<T>> {
+        #[cfg(folo_verif)]
+        crate::verif_hook::point("si.global.read");
         GLOBAL_REGISTRY
             .read()
             .expect(ERR_POISONED_LOCK)
@@ -188,6 +192,8 @@ where
         // We do not today make use of our right to create a "first" instance of `T` even when
         // we do not need it. This is a potential future optimization if it proves valuable.
 
+        #[cfg(folo_verif)]
+        crate::verif_hook::point("si.global.write");
         let mut global_registry = GLOBAL_REGISTRY.write().expect(ERR_POISONED_LOCK);
 
         // TODO: We are repeatedly acquiring the family key here and in sibling functions.
@@ -324,6 +330,23 @@ pub fn __private_clear_linked_variables_local() {
     LOCAL_REGISTRY.with(|local_registry| {
         local_registry.borrow_mut().clear();
     });
+}
+
+/// Verification-only read-only probe: 0 = the global registry lock is free, 1 = read-locked,
+/// 2 = write-locked (observed through `try_read` / `try_write`, nothing is modified).
+#[cfg(folo_verif)]
+#[doc(hidden)]
+#[must_use]
+pub fn __verif_global_registry_lock_state() -> u8 {
+    use std::sync::TryLockError;
+
+    if matches!(GLOBAL_REGISTRY.try_read(), Err(TryLockError::WouldBlock)) {
+        return 2;
+    }
+    if matches!(GLOBAL_REGISTRY.try_write(), Err(TryLockError::WouldBlock)) {
+        return 1;
+    }
+    0
 }
 
 #[cfg(test)]
